@@ -3,8 +3,8 @@
 property's check, records what it reported, and restores /repo.  Usage: seedtest.py [--tier quick|thorough] [ID[/m] ...]"""
 import json, os, subprocess, sys, glob, time
 VERIF = os.path.dirname(os.path.dirname(os.path.abspath(__file__)))
-REPO = "/repo"
-env = dict(os.environ, PYTHONPATH=REPO, PYTHONHASHSEED="0")
+REPO = os.environ.get("AMOCO_REPO", "/repo")      # a scratch worktree can be used instead (with a copy of /verif)
+env = dict(os.environ, PYTHONPATH=REPO, PYTHONHASHSEED="0", AMOCO_REPO=REPO)
 
 
 def sh(cmd, **kw):
@@ -39,7 +39,7 @@ def main():
                     t = sh("cd %s && /venv/bin/python -m pytest -q -x -p no:cacheprovider tests 2>&1 | tail -1" % REPO, env=env)
                     res["tests"] = t.stdout.strip()
                     t0 = time.time()
-                    c = sh("cd %s && timeout -k 10 1500 ./check %s --tier %s" % (VERIF, pid, tier))
+                    c = sh("cd %s && timeout -k 10 1500 ./check %s --tier %s" % (VERIF, pid, tier), env=env)
                     res["check_exit"] = c.returncode
                     res["check_wall_s"] = round(time.time() - t0, 1)
                     res["violations"] = [l[:300] for l in c.stdout.splitlines() if l.startswith("VIOLATION")][:8]
